@@ -13,12 +13,14 @@ import concurrent.futures
 import json
 import os
 import subprocess
+import threading
 
 from vlib import core
 
 BOUNDARY = [0, 1, 7, 8, 9, 15, 16, 17, 23, 24, 25, 31, 32, 33, 40]
 ALL_N = list(range(41))
 THRESHOLD = 16          # WORD_COPY_THRESHOLD of mem.rs on x86_64 (checked against the probe's meta line: word = 8)
+_LOCK = threading.Lock()
 BATCH = 25000
 PAR = 4                 # concurrent single-worker TLC judges
 
@@ -94,7 +96,8 @@ def judge(chk, recs, tag):
     bad = set()
     with concurrent.futures.ThreadPoolExecutor(max_workers=PAR) as ex:
         for k, res, b in ex.map(one, jobs):
-            chk.add_tlc(res)
+            with _LOCK:
+                chk.add_tlc(res)
             bad |= {k + i - 1 for i in b}
     return bad, len(recs)
 
@@ -203,7 +206,8 @@ def canaries(chk, calls, bad):
 
 
 def model_check(chk, tier):
-    cfgs = [("MemAlg_w2.cfg", 8), ("MemAlg_w4.cfg", 8), ("MemAlg_w8.cfg", 8)]
+    # quick: the real (8, 16) pair on a 32-cell memory (n up to 2*threshold); thorough: 40 cells and (4, 16)
+    cfgs = [("MemAlg_w2.cfg", 8), ("MemAlg_w4.cfg", 8), ("MemAlg_w8q.cfg" if tier == "quick" else "MemAlg_w8.cfg", 8)]
     if tier != "quick":
         cfgs.append(("MemAlg_w4t16.cfg", 8))
     info = []
@@ -216,7 +220,8 @@ def model_check(chk, tier):
             core.log("MemAlg %s: model counterexample (lead, not a verdict): %s" % (cfg, res.invariant_violated or res.errors[:2]))
             continue
         core.tlc_must_pass(res, "MemAlg " + cfg)
-        chk.add_tlc(res)
+        with _LOCK:
+            chk.add_tlc(res)
         info.append({"cfg": cfg, "states": res.distinct, "transitions": res.generated, "wall_s": round(res.wall, 1)})
     chk.extra["transcription_model_checked"] = info
 
@@ -282,7 +287,8 @@ def model_level(chk, tier):
     lemma = core.run_tlc("MemRunLemma.tla", "MemRunLemma.cfg" if tier == "quick" else "MemRunLemma_t.cfg", workers=4,
                          timeout=3000, xmx="6g")
     core.tlc_must_pass(lemma, "MemRunLemma")
-    chk.add_tlc(lemma)
+    with _LOCK:
+        chk.add_tlc(lemma)
     chk.extra["run_judge_equivalence_lemma"] = {"cases": lemma.distinct, "wall_s": round(lemma.wall, 1),
                                                 "what": "CellJudge = RunJudge for every run list (<= 3 runs) and every memmove/memset call on a scaled arena"}
 
@@ -326,6 +332,8 @@ def run(tier):
     per_fn = {}
     boundary_plan = ("small", "small cpy,mov,set,cmp,bcmp %s sub" % ",".join(map(str, BOUNDARY)),
                      expected_counts(BOUNDARY, {"cpy", "mov", "set", "cmp", "bcmp"}, False))
+    # 1. run every plan on every build (seconds), 2. judge all of it with up to 8 single-worker TLC processes
+    runs = []
     for build, binary in builds.items():
         for tag, cmd, expect in (plans if build in ("debug", "release") else [boundary_plan, plans[-1]]):
             # (a complete plan takes seconds; a hang of the code under test is a TimedOut event)
@@ -347,24 +355,27 @@ def run(tier):
                     got[r["f"]] = got.get(r["f"], 0) + 1
                 if got != expect:
                     raise core.ToolError("probe enumeration incomplete: got %s expected %s" % (got, expect))
-            bad, n = judge(chk, calls, "%s_%s" % (build, tag))
-            ncanary += canaries(chk, calls, bad) if build == "debug" else 0
-            chk.traces += n - len(bad)
-            chk.evaluations += n
-            for r in calls:
-                per_fn[r["f"]] = per_fn.get(r["f"], 0) + 1
-                if r["f"] in ("memcmp", "bcmp"):
-                    if r["p"] < r["n"]:
-                        nontrivial.add((r["f"], r["n"], r["am"], r["bm"], r["p"], r["pr"]))
-                elif r["n"] >= THRESHOLD:
-                    nontrivial.add((r["f"], r["n"], r["d"], r.get("s", r.get("c"))))
-            for i in sorted(bad):
-                r = calls[i]
-                sig, what = describe(r)
-                chk.violate(sig, "[%s] %s - rejected by MemJudge/Mem.tla" % (build, what),
-                            {"build": build, "record": r, "replay_cmd": replay_cmd(r)})
-            if calls and len(chk.samples) < 6:
-                chk.sample({"build": build, "plan": tag, "line": json.dumps(calls[len(calls) // 2])[:400]})
+            runs.append((build, tag, calls))
+    with concurrent.futures.ThreadPoolExecutor(max_workers=2) as ex:
+        judged = list(ex.map(lambda r: judge(chk, r[2], "%s_%s" % (r[0], r[1])), runs))
+    for (build, tag, calls), (bad, n) in zip(runs, judged):
+        ncanary += canaries(chk, calls, bad) if build == "debug" else 0
+        chk.traces += n - len(bad)
+        chk.evaluations += n
+        for r in calls:
+            per_fn[r["f"]] = per_fn.get(r["f"], 0) + 1
+            if r["f"] in ("memcmp", "bcmp"):
+                if r["p"] < r["n"]:
+                    nontrivial.add((r["f"], r["n"], r["am"], r["bm"], r["p"], r["pr"]))
+            elif r["n"] >= THRESHOLD:
+                nontrivial.add((r["f"], r["n"], r["d"], r.get("s", r.get("c"))))
+        for i in sorted(bad):
+            r = calls[i]
+            sig, what = describe(r)
+            chk.violate(sig, "[%s] %s - rejected by MemJudge/Mem.tla" % (build, what),
+                        {"build": build, "record": r, "replay_cmd": replay_cmd(r)})
+        if calls and len(chk.samples) < 6:
+            chk.sample({"build": build, "plan": tag, "line": json.dumps(calls[len(calls) // 2])[:400]})
     model_future.result()
     bg.shutdown()
     chk.nontrivial = len(nontrivial)
